@@ -171,6 +171,9 @@ func (g *gov) genUpdate(pred *trcSpec, now time.Time, pf profile) *trcSpec {
 		rotated := rotate(clsReg, pf.rotReg, "upd.rotreg")
 		rotate(clsRoot, pf.rotRoot, "upd.rotroot")
 		s.note = "regular"
+		if !pf.plain && r.Chance("upd.reorder", 1, 3) {
+			g.reorder(s)
+		}
 		g.finish(pred, s, clsReg, rotated, pf.plain)
 		return s
 	}
@@ -247,8 +250,30 @@ func (g *gov) genUpdate(pred *trcSpec, now time.Time, pf profile) *trcSpec {
 	if maxQ := min(len(s.indices(clsSens)), len(s.indices(clsReg))); s.quorum > maxQ {
 		s.quorum = maxQ
 	}
+	if !pf.plain && r.Chance("upd.reorder", 1, 3) {
+		g.reorder(s)
+	}
 	g.finish(pred, s, clsSens, rotSens, pf.plain)
 	return s
+}
+
+// reorder lists the certificates of s in a different order (1-3 transpositions). The order of the certificate
+// sequence carries no meaning in trc.rst: votes name positions in the PREDECESSOR, and "changed" certificates are
+// matched by category and distinguished name. Must be called after all position-based edits of s.certs.
+func (g *gov) reorder(s *trcSpec) {
+	if len(s.certs) < 2 {
+		return
+	}
+	n := 1 + g.r.Choice("reorder.swaps", 3)
+	for k := 0; k < n; k++ {
+		i := g.r.Choice("reorder.i", len(s.certs))
+		j := g.r.Choice("reorder.j", len(s.certs)-1)
+		if j >= i {
+			j++
+		}
+		s.certs[i], s.certs[j] = s.certs[j], s.certs[i]
+	}
+	s.note += "~order"
 }
 
 func without(l []int, v int) []int {
@@ -503,6 +528,14 @@ func (g *gov) forge(pred *trcSpec, rule string, now time.Time) *trcSpec {
 		i := free[r.Choice("forge.which", len(free))]
 		s.certs[i].ver++
 		s.sigs = append(s.sigs, sigSpec{sid: s.certs[i], key: s.certs[i]})
+		switch r.Choice("forge.order", 3) {
+		case 1:
+			// the replacing certificate trades places with another regular voting certificate
+			j := regs[r.Choice("forge.order.with", len(regs))]
+			s.certs[i], s.certs[j] = s.certs[j], s.certs[i]
+		case 2:
+			g.reorder(s)
+		}
 	case "reg.noack":
 		if len(roots) == 0 {
 			return nil
